@@ -263,8 +263,6 @@ class _VersionIndependentUnmarshaller:
 
     def t_long(self, save_ref, bytes_for_s=False):
         n = unpack("<i", self.fp.read(4))[0]
-        if n == 0:
-            return long(0)
         size = abs(n)
         d = long(0)
         for j in range(0, size):
@@ -275,6 +273,9 @@ class _VersionIndependentUnmarshaller:
             d = long(d)
         if n < 0:
             d = long(d * -1)
+        if magic_int2tuple(self.magic_int) >= (3, 0):
+            # Python 3 has a single int type
+            d = int(d)
 
         return self.r_ref(d, save_ref)
 
